@@ -14,7 +14,7 @@ Unfold(o, i) ==       \* handler events 1..i, each preceded by the reads made si
   IF i = 0 THEN <<>>
   ELSE Unfold(o, i - 1)
        \o (IF ReadsAt(o, i) > ReadsAt(o, i - 1) THEN <<[t |-> "getc", k |-> ReadsAt(o, i) - ReadsAt(o, i - 1)]>> ELSE <<>>)
-       \o <<[t |-> o.ev[i].e, p |-> o.ev[i].p]>>
+       \o <<[t |-> o.ev[i].e, p |-> o.ev[i].p, vl |-> IF o.ev[i].hv = 1 THEN o.ev[i].vl ELSE 0, post |-> o.ev[i].post]>>
 
 EvList(run) ==
   LET o == run.obs
@@ -24,10 +24,10 @@ EvList(run) ==
           <<[t |-> "start", len |-> o.len, before |-> <<>>]>>
           \o Unfold(o, n)
           \o (IF o.reads > ReadsAt(o, n) THEN <<[t |-> "getc", k |-> o.reads - ReadsAt(o, n)]>> ELSE <<>>)
-          \o <<[t |-> "return", ok |-> ok, after |-> <<>>, net |-> o.net, netclear |-> o.net]>>
+          \o <<[t |-> "return", ok |-> ok, after |-> <<>>, net |-> o.net, netclear |-> o.net, links |-> 0]>>
      ELSE <<[t |-> "start", len |-> o.len, before |-> o.fbefore]>>
           \o (IF o.reads > 0 THEN <<[t |-> "getc", k |-> o.reads]>> ELSE <<>>)
-          \o <<[t |-> "return", ok |-> ok, after |-> o.ftree, net |-> o.net, netclear |-> o.netclear]>>
+          \o <<[t |-> "return", ok |-> ok, after |-> o.ftree, net |-> o.net, netclear |-> o.netclear, links |-> o.links]>>
 
 RECURSIVE Final(_, _, _)
 Final(s, evs, i) == IF i > Len(evs) THEN s ELSE Final(Upd(s, evs[i]), evs, i + 1)
